@@ -259,6 +259,86 @@ var c01Hazards = []string{
 	"print(z); let z = 1",
 	"function outer() { function inner() { return 1 } return inner() + 1 } print(outer())",
 	"// leading comment\nprint(1) // trailing\n// own line\n\n\nprint(2)\n// before end",
+	"let o = {\"9007199254740993\": \"alice\", \"12345678901234567890123\": \"b\", \"1e21\": 1, \"010\": 2, \"0x10\": 3, \"1.0\": 4, \".5\": 5, \"-1\": 6, \"7\": 7, \"a-b\": 8, \"if\": 9, '': 10};\nprint(Object.keys(o).join(\"|\")); print(o[\"9007199254740993\"]); print(o[\"1e21\"]); print(o[\"010\"]); print(o[8]); print(o[\"\"]);",
+	"function f(o, a, b) { if (o) if (a) print(1); else { if (b) print(2) } else print(3) }\nf(0,0,0); f(1,0,0); f(1,0,1); f(1,1,0); f(0,1,1);\nfunction g(o, a, b) { if (o) { if (a) print(4) } else if (b) print(5); else print(6) }\ng(0,0,0); g(0,0,1); g(1,0,0); g(1,1,0);\nfunction h(a, b) { if (a) if (b) print(7); else print(8) }\nh(0,0); h(1,0); h(1,1); h(0,1);",
+}
+
+// control-flow shapes: statements nested without and with braces (if / else chains, dangling else in every position,
+// loops with brace-less bodies, blocks, early returns), written directly as text - the source is its own reference, so no
+// tree model is needed - with a unique print marker at every leaf, and executed under all 16 assignments of four
+// conditions. Which `if` an `else` belongs to, and where a brace-less body ends, decide which markers are printed.
+func flowShape(r interface{ IntN(int) int }, d int, next *int, inLoop bool) string {
+	leaf := func() string {
+		*next++
+		return fmt.Sprintf("print(%d)", *next)
+	}
+	sep := func() string { return []string{";", ";", "\n", ";\n", " ;"}[r.IntN(5)] }
+	cond := func() string {
+		c := fmt.Sprintf("c%d", r.IntN(4))
+		switch r.IntN(6) {
+		case 0:
+			return "!" + c
+		case 1:
+			return c + " && " + fmt.Sprintf("c%d", r.IntN(4))
+		}
+		return c
+	}
+	if d <= 0 {
+		return leaf() + sep()
+	}
+	sub := func() string { return flowShape(r, d-1-r.IntN(2), next, inLoop) }
+	switch r.IntN(12) {
+	case 0, 1:
+		return "if (" + cond() + ") " + sub()
+	case 2, 3, 4:
+		return "if (" + cond() + ") " + sub() + []string{" ", "\n", ""}[r.IntN(3)] + "else " + sub()
+	case 5:
+		return "if (" + cond() + ") {" + sub() + "} else " + sub()
+	case 6:
+		return "if (" + cond() + ") " + sub() + " else {" + sub() + "}"
+	case 7:
+		n := r.IntN(4)
+		out := "{"
+		for i := 0; i < n; i++ {
+			out += " " + sub()
+		}
+		return out + " }"
+	case 8:
+		*next++
+		v := fmt.Sprintf("i%d", *next)
+		return "for (let " + v + " = 0; " + v + " < 2; " + v + "++) " + flowShape(r, d-1, next, true)
+	case 9:
+		*next++
+		v := fmt.Sprintf("w%d", *next)
+		return "{ let " + v + " = 0;\nwhile (" + v + "++ < 2) " + flowShape(r, d-1, next, true) + " }"
+	case 10:
+		if r.IntN(2) == 0 {
+			return "if (" + cond() + ") return" + []string{";", "\n", " " + fmt.Sprint(*next) + ";"}[r.IntN(3)]
+		}
+		return leaf() + sep()
+	}
+	return leaf() + sep()
+}
+
+func runC01Flow(t *fw.T) {
+	r := t.Rand()
+	next := 0
+	var sb strings.Builder
+	sb.WriteString("function f(c0, c1, c2, c3) {\n")
+	for i, n := 0, 1+r.IntN(3); i < n; i++ {
+		sb.WriteString(flowShape(r, 1+r.IntN(4), &next, false))
+		sb.WriteString("\n")
+	}
+	sb.WriteString("}\n")
+	for a := 0; a < 16; a++ {
+		fmt.Fprintf(&sb, "print(\"#%d\"); print(f(%d, %d, %d, %d));\n", a, a&1, a>>1&1, a>>2&1, a>>3&1)
+	}
+	src := sb.String()
+	checkBehaviour(t, src, "control-flow-shape", c01Cfgs(t))
+	t.Distinct(src)
+	if t.WantSample() && len(src) < 900 {
+		t.Sample(map[string]any{"stratum": "control-flow-shapes", "source": src})
+	}
 }
 
 func runC01Hazards(t *fw.T) {
@@ -280,6 +360,7 @@ func init() {
 		Strata: []*fw.Stratum{
 			{Name: "hazards", Quick: len(c01Hazards), Thorough: len(c01Hazards), Exhaustive: true, Run: runC01Hazards},
 			{Name: "programs", Quick: 10000, Thorough: 60000, Run: runC01},
+			{Name: "control-flow-shapes", Quick: 2500, Thorough: 20000, Run: runC01Flow},
 		},
 	})
 }
